@@ -196,6 +196,9 @@ class TemplateParser:
     def parse(self, text: str) -> Pattern:
         self.log.debug("Parsing '%s'", text)
         lexer = TagTemplateLexer(InputStream(text))
+        lexer_errors = LexerErrorCollector()
+        lexer.removeErrorListeners()
+        lexer.addErrorListener(lexer_errors)
         token_stream = CommonTokenStream(lexer)
         token_stream.fill()
         parser = TagTemplateParser(token_stream)
@@ -203,8 +206,26 @@ class TemplateParser:
 
         visitor = _TreeVisitor()
         root_pattern = visitor.visitRootPattern(parser.rootPattern())
+        if lexer_errors.errors:
+            # Characters skipped by the lexer must not be silently dropped
+            raise lexer_errors.errors[0]
         root_pattern.source_representation = text
         return root_pattern
+
+
+class LexerErrorCollector(ErrorListener):
+    """Collects characters not recognized by the lexer (parser errors take precedence)"""
+
+    errors: List[TemplateSyntaxError]
+
+    def __init__(self):
+        super().__init__()
+        self.errors = []
+
+    def syntaxError(self, recognizer, offendingSymbol, line, column, msg, e):
+        unrecognized = msg.replace("token recognition error at: ", "")
+        error = TemplateSyntaxError(f"unrecognized input {unrecognized}")
+        self.errors.append(error.with_location(Location(line, column, 1)))
 
 
 class TagTemplateErrorListener(ErrorListener):
